@@ -157,6 +157,17 @@ def a_cache_key(ctx):
                   "the cached event list is copied before use" if copied else
                   "the cached event list is used without a copy: generate_async extends it in place, so the entry stored for a shared prefix picks up this conversation's later turns and another conversation continues from them",
                   line=r.lineno)
+    # nothing is ever REMOVED from the cache: the earlier turns of a conversation (context variables set by rails, the flow state) exist only there; an eviction policy makes
+    # the reply to a conversation depend on how many OTHER conversations were served in between
+    evict = [n for n in ast.walk(tr) if (isinstance(n, ast.Delete) and any("events_history_cache" in src(t_) for t_ in n.targets)) or
+             (isinstance(n, ast.Call) and isinstance(n.func, ast.Attribute) and n.func.attr in ("pop", "popitem", "clear") and "events_history_cache" in src(n.func.value))]
+    rebinds = [n for n in ast.walk(tr) if isinstance(n, ast.Assign) and any(src(t_) == "self.events_history_cache" for t_ in n.targets)
+               and (enclosing_function(n) is None or enclosing_function(n).name != "__init__")]
+    ctx.check("C15.a.cache-no-eviction", LLMRAILS, "LLMRails", "entries of events_history_cache are never removed", not evict and not rebinds,
+              "no statement deletes from or replaces the events history cache" if not evict and not rebinds else
+              "`%s` removes entries from the events history cache: a conversation whose entry was evicted is rebuilt from the bare messages - context variables and flow state of its "
+              "earlier turns are gone, so its reply depends on how many other conversations the instance served in between" % first_line((evict + rebinds)[0], 70),
+              line=((evict + rebinds)[0].lineno if evict or rebinds else 1))
     # the cache is only written with a key computed by the same function over the same messages
     gen = find_function(tr, "generate_async")
     stores = [n for n in ast.walk(tr) if isinstance(n, ast.Assign) and isinstance(n.targets[0], ast.Subscript) and src(n.targets[0].value) == "self.events_history_cache"]
@@ -253,6 +264,24 @@ def c_restore(ctx):
     l_out, P2, V2 = _loop_vars(exit_, "original_params.items()")
     if l_in is None or l_out is None:
         raise AnalysisError("LLMParams: loops over altered_params / original_params not recognised", anchor=PARAMS + "::LLMParams.__enter__")
+    # the record of the original values must be the one __exit__ (and the rollback) reads, AT THE TIME an alteration fails: every save goes into that container itself
+    # (or into a local bound to the same object before the loop) - a local dict that is published after the loop leaves the rollback with nothing to restore
+    E_out = re.sub(r"\.items\(\)$", "", src(l_out.iter))
+    saves_ = [a for a in ast.walk(l_in) if isinstance(a, ast.Assign) and isinstance(a.targets[0], ast.Subscript) and "original" in src(a.targets[0].value)]
+    ctx.floor("C15.c.saves-visible", PARAMS, "stores of an original value in the altering loop", len(saves_), 2)
+    for a in saves_:
+        base = src(a.targets[0].value)
+        okv = base == E_out
+        if not okv:
+            for b in ast.walk(enter):
+                if isinstance(b, ast.Assign) and b.lineno < l_in.lineno:
+                    names = [src(t_) for t_ in b.targets] + [src(b.value)]
+                    if base in names and E_out in names:
+                        okv = True
+        ctx.check("C15.c.saves-visible", PARAMS, "LLMParams." + enter.name, "%s = ..." % first_line(a.targets[0], 50), okv,
+                  "the original value is recorded in `%s`, which __exit__ and the rollback read" % E_out if okv else
+                  "the original value is recorded in the local `%s`; `%s` gets it only after ALL parameters were altered: when a later alteration raises, the rollback "
+                  "(and __exit__) see an empty record and the parameters already applied stay on the shared LLM" % (base, E_out), line=a.lineno)
     # branch 1: attribute of the llm
     set1 = any(isinstance(c, ast.Call) and src(c.func) == "setattr" and src(c.args[0]) == "self.llm" for c in ast.walk(enter))
     save1 = any(isinstance(a, ast.Assign) and "original_params" in src(a.targets[0]) and src(a.value).startswith("getattr(self.llm") for a in ast.walk(enter))
